@@ -198,10 +198,11 @@ def union_templates(ctx, L):
              ('return do_decode_advance({0}, pos, end);\n', ['node.byte_size - DISC_SIZE - discpad']))):
         f = m.func(q)
         dp = [s for s in f.node.body if isinstance(s, ast.Assign) and unparse(s.targets[0]) == 'discpad']
-        ok = len(dp) == 1 and re.sub(r'\s+', '', unparse(dp[0].value)) in (
-            'node.alignment>DISC_SIZEand(node.alignment-DISC_SIZE)or0', 'node.alignment>DISC_SIZEandnode.alignment-DISC_SIZEor0',
-            'node.alignment>=DISC_SIZEandnode.alignment-DISC_SIZEor0', 'max(node.alignment-DISC_SIZE,0)',
-            'node.alignment-DISC_SIZE')
+        from . import shared_py as P_
+        ok = len(dp) == 1 and any(P_.sem_is(f, dp[0].value, alt, ['node']) for alt in (
+            'node.alignment > DISC_SIZE and (node.alignment - DISC_SIZE) or 0', 'node.alignment >= DISC_SIZE and node.alignment - DISC_SIZE or 0',
+            'max(node.alignment - DISC_SIZE, 0)', 'max(0, node.alignment - DISC_SIZE)', 'node.alignment - DISC_SIZE',
+            'node.alignment - DISC_SIZE if node.alignment > DISC_SIZE else 0'))
         L.check(ok, 'F1gen.union-steps', q + '|discpad', f.site(), 'discriminator gap must be alignment - DISC_SIZE (0 when the '
                 'union alignment is 4)', unparse(dp[0]) if dp else '')
         em = emits_of(f.node.body)
